@@ -26,6 +26,14 @@
         ∀ n sub outs, Conforms (concat n sub outs) outs (concatAttempts n outs) (termAfter outs (concatAttempts n outs))
       `concat_conforms_partial` excludes exactly `Known.concatErrorBeforeLast`; `concat_rest` proves the
       sequential log, the values and the terminal for every input.
+    * the `Wait` window (kernel, `subscription.go:104-150` vs `167-177`): `Wait()` returns as soon as the
+      subscription's `done` flag is set, also while the finalizers are still running on another
+      goroutine. In the schedule where an attempt's terminal arrives after its teardown was registered
+      and before the operator reaches `Wait`, every waiting operator subscribes the next attempt while
+      the previous teardown has not finished: log s₁ s₂ t₁ … (`wait_window_deviation`,
+      `wait_window_witness`; driven on the real code by `mode=tdrace`). The `Conforms` theorems describe
+      all other schedules (terminal before `Subscribe` returns — synchronous attempts — or after the
+      operator has entered `Wait`), where the model's log is the one the code produces.
   Noted, not part of C15: Retry/While/DoWhile/OnErrorResumeNextWith/Concat do not look at the
   destination, so the attempt counts above do not depend on `cut` (downstream gone: C14);
   RepeatWith registers nothing for teardown (C14); OnErrorResumeNextWith rewrites its captured
@@ -276,6 +284,18 @@ theorem catch_deviation (mode : Mode) (sub : Ctx) (outs : List Outcome) (h : Kno
 theorem catch_witness :
     (catch_ .sync {} [⟨[(1, 11)], 2, .error 1⟩, ⟨[(1, 21)], 2, .complete⟩]).log = [.s 1, .s 2, .t 2, .t 1] := by decide
 
+/-! ### the `Wait` window -/
+
+/-- for every number of attempts ≥ 2: two attempts alive, the log is not sequential -/
+theorem wait_window_deviation (n : Nat) :
+    maxLive (overlapLog (n + 2)) = 2 ∧ overlapLog (n + 2) ≠ seqLog 1 (n + 2) :=
+  ⟨maxLive_overlapLog n, overlapLog_ne_seqLog n⟩
+
+/-- witness: a Retry whose first attempt fails — s₁ s₂ t₁ t₂ -/
+theorem wait_window_witness :
+    overlapLog (retry ⟨0, false, false⟩ {} none [⟨[(1, 11)], 2, .error 1⟩, ⟨[(1, 21)], 2, .complete⟩]).attempts
+      = [.s 1, .s 2, .t 1, .t 2] := by decide
+
 /-! ### non-vacuity: concrete runs -/
 
 def fail0 (e : Nat) : Outcome := ⟨[], 1, .error e⟩
@@ -328,3 +348,5 @@ end Ro.C15
 #print axioms Ro.C15.catch_conforms_partial
 #print axioms Ro.C15.catch_deviation
 #print axioms Ro.C15.catch_witness
+#print axioms Ro.C15.wait_window_deviation
+#print axioms Ro.C15.wait_window_witness
